@@ -943,7 +943,9 @@ class NetworkGraph(AbstractBaseIR):
                     weighting = ""
                 else:
                     weighting = f" * {w_str}"
-                    args[w_str] = {'vtype': 'constant', 'dtype': 'float', 'value': weight if ssize > 1 else weight[0]}
+                    # a scalar source that projects to several targets still needs one weight per target
+                    args[w_str] = {'vtype': 'constant', 'dtype': 'float',
+                                   'value': weight if ssize > 1 or len(weight) > 1 else weight[0]}
 
                 # get final source and target strings
                 s_str_final = _get_indexed_var_str(s_str, sidx, ssize, reduce=m == 1 and tsize > 1 and n == 1,
